@@ -49,7 +49,70 @@ SELECT_BUILDERS = {
 }
 WRAP_BUILDERS = ["and_", "or_", "not_", "as_", "subquery", "isin", "between", "like", "eq", "neq", "is_", "desc", "asc", "with_", "union", "limit_q"]
 NM_FUNCS = ["sql_all", "sql_all", "update_fn", "insert_fn", "column_fn", "placeholders_expr", "sql", "sql", "sql", "optimize", "qualify_copy", "annotate_copy", "diff", "diff", "lineage", "expand", "replace_tables", "replace_placeholders",
-            "maybe_parse_copy", "binop", "dump", "alias_", "subquery_fn", "not_fn", "and_fn", "cast_fn", "find_tables", "to_s", "union_fn", "copy_eq", "plan"]
+            "maybe_parse_copy", "binop", "dump", "alias_", "subquery_fn", "not_fn", "and_fn", "cast_fn", "find_tables", "to_s", "union_fn", "copy_eq", "plan",
+            "refl", "refl", "refl_fn", "refl_fn"]
+# arguments for the reflective builder op: every public method of the target's class that has a `copy` parameter is a candidate
+REFL_ARGS = {"select": ["nn"], "where": ["zz > 1"], "having": ["COUNT(*) > 1"], "qualify": ["rn = 1"], "on": ["zz = 1"], "from_": ["ft"], "join": ["jt"],
+             "group_by": ["gg"], "order_by": ["oo DESC"], "sort_by": ["sb"], "cluster_by": ["cb"], "limit": [7], "offset": [2], "with_": ["al", "SELECT 1 AS a"],
+             "union": ["SELECT 9 AS z"], "intersect": ["SELECT 9 AS z"], "except_": ["SELECT 9 AS z"], "using": ["uu"], "ctas": ["newt"], "lock": [], "hint": ["HINT1"],
+             "returning": ["rr"], "delete": ["dt"], "table": ["ut"], "set_": ["x = 1"], "when": ["zz > 1", "1"], "else_": ["0"], "isin": [1, 2], "between": [1, 5],
+             "as_": ["al"], "subquery": ["al"], "to_column": [], "distinct": ["dd"], "window": ["w AS (PARTITION BY p)"], "lateral": ["lt AS l"], "and_": ["k = 1"],
+             "or_": ["k = 1"], "not_": []}
+_REFL_CACHE = {}
+
+
+def _refl_methods(cls):
+    """Sorted names of the public methods of `cls` that take a `copy` parameter (sql/transform have their own ops)."""
+    import inspect
+
+    if cls not in _REFL_CACHE:
+        out = []
+        for name in sorted(dir(cls)):
+            if name.startswith("_") or name in ("sql", "transform"):
+                continue
+            m = getattr(cls, name, None)
+            if inspect.isfunction(m):
+                try:
+                    if "copy" in inspect.signature(m).parameters:
+                        out.append(name)
+                except (TypeError, ValueError):
+                    pass
+        _REFL_CACHE[cls] = out
+    return _REFL_CACHE[cls]
+
+
+def _refl_fn_calls(exp, n, n2):
+    """Module-level builder functions documented to copy their Expression arguments, called with LIVE nodes (n, n2)."""
+    T, C, I, Q = exp.Table, exp.Column, exp.Identifier, exp.Query
+    return [
+        ("func", lambda: exp.func("COALESCE", n, n2)),
+        ("func1", lambda: exp.func("MY_UDF", n)),
+        ("case", lambda: exp.case(n).when(n2, "1").else_(n2)),
+        ("case0", lambda: exp.case().when(n, n2)),
+        ("array", lambda: exp.array(n, n2)),
+        ("tuple_", lambda: exp.tuple_(n, n2)),
+        ("to_table", lambda: exp.to_table(n) if isinstance(n, T) else None),
+        ("to_column", lambda: exp.to_column(n) if isinstance(n, C) else None),
+        ("to_identifier", lambda: exp.to_identifier(n) if isinstance(n, I) else None),
+        ("convert", lambda: exp.convert(n, copy=True)),
+        ("convert_list", lambda: exp.convert([n, n2], copy=True)),
+        ("normalize_table_name", lambda: exp.normalize_table_name(n) if isinstance(n, T) else None),
+        ("alias_table", lambda: exp.alias_(n, "al", table=isinstance(n, (T, exp.Subquery)))),
+        ("paren", lambda: exp.paren(n)),
+        ("condition", lambda: exp.condition(n)),
+        ("or_", lambda: exp.or_(n, n2)),
+        ("xor", lambda: exp.xor(n, n2)),
+        ("merge", lambda: exp.merge("WHEN MATCHED THEN DELETE", into=n if isinstance(n, T) else "tgt", using=n2 if isinstance(n2, T) else "src",
+                                    on=n if isinstance(n, exp.Condition) else "a = b")),
+        ("cast_dt", lambda: exp.cast(n, n2) if isinstance(n2, exp.DataType) else exp.cast(n, "int")),
+        ("column", lambda: exp.column(n, table=n2) if isinstance(n, I) and isinstance(n2, I) else None),
+        ("subquery", lambda: exp.subquery(n, "al") if isinstance(n, Q) else None),
+        ("expand", lambda: exp.expand(n, {"x": n2}) if isinstance(n2, Q) else None),
+        ("intersect", lambda: exp.intersect(n, n2) if isinstance(n, Q) and isinstance(n2, Q) else None),
+        ("except_", lambda: exp.except_(n, n2) if isinstance(n, Q) and isinstance(n2, Q) else None),
+        ("insert", lambda: exp.insert(n, n2 if isinstance(n2, T) else "tgt") if isinstance(n, Q) else None),
+        ("update", lambda: exp.update(n if isinstance(n, T) else "tt", {"a": n2})),
+    ]
 BAD_SQL = "SELECT (((("
 
 
@@ -251,6 +314,11 @@ def _gen_op(rng, g, cfg, fault_now):
         return {"k": "wrap", "t": rng.randrange(64), "n": rng.randrange(4096), "b": rng.choice(WRAP_BUILDERS), "copy": rng.random() < (0.8 if cfg["mode"] == "C09" else 0.4),
                 "bad": bool(fault_now and "bad_builder_arg" in faults), "donor": [rng.randrange(64), rng.randrange(4096)] if rng.random() < 0.4 else None}
     if g == "comments":
+        r_ = rng.random()
+        if r_ < 0.25:
+            return {"k": "meta_put", **_tn(rng), "kind": rng.choice(["list", "dict", "expr", "nested"])}
+        if r_ < 0.45:
+            return {"k": "meta_mut", **_tn(rng)}
         return {"k": "comments", **_tn(rng), "prepend": rng.random() < 0.5, "meta": rng.random() < 0.3}
     if g == "set_kwargs":
         return {"k": "set_kwargs", **_tn(rng), "keys": [rng.randrange(64), rng.randrange(64)], "v": [_val(rng), _val(rng)]}
@@ -275,7 +343,7 @@ def _gen_op(rng, g, cfg, fault_now):
         return {"k": "nm", "f": f, "t": rng.randrange(64), "n": 0 if rng.random() < 0.6 else rng.randrange(4096), "t2": rng.randrange(64), "n2": 0 if rng.random() < 0.5 else rng.randrange(4096),
                 "dialect": d, "opts": opts, "exhaust": rng.randrange(5, 80) if (fault_now and "stack_exhaustion" in faults) else None,
                 "matchings": rng.random() < 0.3, "delta_only": rng.random() < 0.3, "col_node": rng.random() < 0.5, "keep": rng.random() < 0.5,
-                "db_node": rng.choice([0, 0, 1, 2])}
+                "db_node": rng.choice([0, 0, 1, 2]), "m": rng.randrange(4096)}
     raise ValueError(g)
 
 
@@ -898,6 +966,39 @@ def _apply(world, op, st):
         n.add_comments(["c%d" % (op["n"] % 7)] + ([" sqlglot.meta k=v"] if op["meta"] else []), prepend=op["prepend"])
         return res
 
+    if k == "meta_put":
+        # meta is the user's per-node dictionary; annotate_types / normalize_identifiers store lists and DataType nodes in it
+        t, n, _ = target(op["t"], op["n"])
+        res["targets"].add(id(t)); res["mut_tree"] = t
+        kind = op["kind"]
+        n.meta["verif_" + kind] = {"list": ["m", 1], "dict": {"k": 1}, "expr": exp.DataType.build("int"), "nested": {"l": ["x"], "e": [exp.DataType.build("text")]}}[kind]
+        return res
+
+    if k == "meta_mut":
+        # in-place edit of a mutable value stored in some node's meta: only the tree that holds that node may change
+        t, n0, nodes = target(op["t"], op["n"])
+        res["targets"].add(id(t)); res["mut_tree"] = t
+        start = next((i for i, x in enumerate(nodes) if x is n0), 0)
+        for x in nodes[start:] + nodes[:start]:
+            for mk in sorted(x._meta or {}, key=repr):
+                mv = x._meta[mk]
+                if isinstance(mv, list):
+                    mv.append("mut")
+                elif isinstance(mv, dict):
+                    inner = mv.get("l")
+                    if isinstance(inner, list):
+                        inner.append("mut")
+                    else:
+                        mv["mut"] = mv.get("mut", 0) + 1
+                elif isinstance(mv, exp.DataType):
+                    mv.set("expressions", [exp.DataType.build("int")])
+                else:
+                    continue
+                res["outcome"] = "ok:" + type(mv).__name__
+                return res
+        res["outcome"] = "skip"
+        return res
+
     if k == "set_kwargs":
         t, n, _ = target(op["t"], op["n"])
         res["targets"].add(id(t)); res["mut_tree"] = t
@@ -1134,6 +1235,27 @@ def _apply_nm(world, op, st, res, target):
             elif f == "copy_eq":
                 c = n.copy()
                 res["new"].append((c, n, "copy"))
+            elif f == "refl":
+                # "every builder ... call made with copy=True": any public method of the target's class that takes `copy`, with the
+                # default (copying) behaviour; arguments are strings or detached expressions, so only the receiver is at stake
+                ms = _refl_methods(type(n))
+                if ms:
+                    name = ms[op.get("m", 0) % len(ms)]
+                    args = list(REFL_ARGS.get(name, ["zz"]))
+                    if op.get("col_node"):
+                        args = [exp.maybe_parse(a) if isinstance(a, str) else a for a in args]
+                    res["refl"] = name
+                    r = getattr(n, name)(*args)
+                    res["outcome"] = "ok:" + name
+                else:
+                    res["outcome"] = "skip"
+            elif f == "refl_fn":
+                cl = _refl_fn_calls(exp, n, n2)
+                name, fn = cl[op.get("m", 0) % len(cl)]
+                res["refl"] = name
+                res["nm"].append(t2)
+                r = fn()
+                res["outcome"] = ("ok:" if r is not None else "skip:") + name
             else:
                 raise ValueError(f)
     except RecursionError:
@@ -1141,15 +1263,15 @@ def _apply_nm(world, op, st, res, target):
         st["faults"]["stack_exhaustion"] += 1
     except Exception as e:
         res["outcome"] = type(e).__name__
-    if isinstance(r, Expr) and op.get("keep") and len(inv.walk(r)) <= MAX_NODES:
-        res["new"].append((r, None, "nm:" + f))
+    if isinstance(r, Expr) and (op.get("keep") or f in ("refl", "refl_fn")) and len(inv.walk(r)) <= MAX_NODES:
+        res["new"].append((r, None, "nm:" + f + (":" + res["refl"] if "refl" in res else "")))
     return res
 
 
 # --------------------------------------------------------------------------- the run loop + oracles
 
 C08_ORACLES = ("I1-link", "I2-dup", "I3-stale-hash", "I4-eq-clone", "I4-eq-sql", "I4-eq-leaf", "I4-unhashable", "I5-frame")
-C09_ORACLES = ("N1-arg-mutated", "N2-arg-sql-changed", "N3-copy-not-equal", "N4-copy-shares-node", "N5-arg-cache-link")
+C09_ORACLES = ("N1-arg-mutated", "N2-arg-sql-changed", "N3-copy-not-equal", "N4-copy-shares-node", "N4-copy-shares-state", "N5-arg-cache-link")
 
 
 def execute(record, state=None):
@@ -1176,6 +1298,11 @@ def execute(record, state=None):
     def fail(oracle, cls, step, detail):
         return {"oracle": oracle, "cls": cls, "step": step, "detail": detail}
 
+    res = {}
+
+    def nmn(op_):
+        return _nm_name(op_) + (":" + res["refl"] if res.get("refl") else "")
+
     for step, op in enumerate(record["ops"]):
         k = op["k"]
         # ----- pre-state
@@ -1184,7 +1311,7 @@ def execute(record, state=None):
         pre_sql = None
         snap = None
         tgt_tree = None
-        if world.trees and k in ("set", "set_case", "set_leaf", "set_idx", "append", "replace", "pop", "transform", "replace_children", "replace_tree", "builder", "wrap", "set_kwargs", "rule"):
+        if world.trees and k in ("set", "set_case", "set_leaf", "set_idx", "append", "replace", "pop", "transform", "replace_children", "replace_tree", "builder", "wrap", "set_kwargs", "rule", "meta_put", "meta_mut"):
             tgt_tree = world.tree(op["t"])
             pre_sql = _sql(tgt_tree)
             if pre_sql is not None:
@@ -1240,16 +1367,16 @@ def execute(record, state=None):
                 continue
             now = inv.fingerprint(a)
             if now != pre_fp[id(a)]:
-                v = fail("N1-arg-mutated", _nm_name(op), step, "%s changed its argument tree: %s" % (_nm_name(op), inv.first_diff(pre_fp[id(a)], now)))
+                v = fail("N1-arg-mutated", nmn(op), step, "%s changed its argument tree: %s" % (nmn(op), inv.first_diff(pre_fp[id(a)], now)))
                 break
         if v is None and k == "nm" and tgt_tree is not None and pre_sql is not None and id(tgt_tree) in pre_fp:
             if _sql(tgt_tree) != pre_sql:
-                v = fail("N2-arg-sql-changed", _nm_name(op), step, "%s changed the SQL of its argument: %r -> %r" % (_nm_name(op), pre_sql[:120], (_sql(tgt_tree) or "")[:120]))
+                v = fail("N2-arg-sql-changed", nmn(op), step, "%s changed the SQL of its argument: %r -> %r" % (nmn(op), pre_sql[:120], (_sql(tgt_tree) or "")[:120]))
         if v is None and "_lineage_col" in st:
             col, fp0, sql0, *lab = st.pop("_lineage_col")
             if inv.fingerprint(col) != fp0 or col.sql() != sql0:
-                v = fail("N1-arg-mutated", "%s(%s)" % (_nm_name(op), lab[0] if lab else "column=node"), step,
-                         "%s changed the caller's %s: %r -> %r (%s)" % (_nm_name(op), "column node" if not lab else lab[0] + " object", sql0, col.sql(), inv.first_diff(fp0, inv.fingerprint(col))))
+                v = fail("N1-arg-mutated", "%s(%s)" % (nmn(op), lab[0] if lab else "column=node"), step,
+                         "%s changed the caller's %s: %r -> %r (%s)" % (nmn(op), "column node" if not lab else lab[0] + " object", sql0, col.sql(), inv.first_diff(fp0, inv.fingerprint(col))))
         st.pop("_lineage_col", None)
         for new, src, kind in res["new"]:
             if v is not None:
@@ -1267,6 +1394,20 @@ def execute(record, state=None):
             if shared:
                 v = fail("N4-copy-shares-node", kind, step, "result of %s shares %d node(s) (first: %s) with a live argument tree" % (kind, len(shared), type(shared[0]).__name__))
                 break
+            # ... nor any other mutable object: meta dicts and the lists / dicts / expressions stored in them, comment lists,
+            # type annotations. Judged for the trees the call was given (copy source / declared arguments).
+            srcs = ([src] if src is not None else []) + list(res["nm"])
+            if srcs:
+                live_aux = {}
+                for a_ in srcs:
+                    root_ = a_
+                    while root_.parent is not None:
+                        root_ = root_.parent
+                    live_aux.update(inv.aux_objects(root_))
+                sh = sorted(d_ for i_, d_ in inv.aux_objects(new).items() if i_ in live_aux)
+                if sh:
+                    v = fail("N4-copy-shares-state", kind, step, "result of %s shares %d mutable object(s) (first: %s) with the tree it was made from" % (kind, len(sh), sh[0]))
+                    break
         if v is None and res["nm"] and k in ("nm", "copy", "transform", "builder", "wrap"):
             # a non-mutating call must not leave a broken link or stale hash behind on its argument either
             le = inv.check_links(res["nm"])
@@ -1278,7 +1419,7 @@ def execute(record, state=None):
                         break
             if le or he:
                 e = (le or he)[0]
-                v = fail("N5-arg-cache-link", _nm_name(op) + ":" + e[0], step, "after %s the argument tree violates %s: %s" % (_nm_name(op), e[0], e[1]))
+                v = fail("N5-arg-cache-link", nmn(op) + ":" + e[0], step, "after %s the argument tree violates %s: %s" % (nmn(op), e[0], e[1]))
         if v is not None:
             if mode == "C09":
                 violation = v
